@@ -743,7 +743,26 @@ Section Sim.
       - (* blockHelperMissing *)
         apply rr_bind; [apply q_log_write; auto|]. intros _ s1 s1' _ HR1 Hs1. apply Hor; auto.
       - (* local *)
-        cbv zeta. destruct (starts_with (`"f:") name).
+        cbv zeta. destruct (starts_with (`"c:") name).
+        { (* the capture bracket *)
+          destruct HR as (c & -> & Hc).
+          destruct (hv_tpl h) as [t|] eqn:Et; [|leafx].
+          cbn [np_opt] in Ht.
+          match goal with
+          | |- outcome_rel _ _ _ _ (match ?x with ROk _ _ => _ | _ => _ end)
+                                   (match ?y with ROk _ _ => _ | _ => _ end) =>
+              assert (Hcap : rq x y) by (apply Hrt; [exact Ht|Rx|exact Hs]);
+              destruct x as [u s2|e2 s2|p2|], y as [u' s2'|e2' s2'|p2'|];
+                cbn [outcome_rel] in Hcap; try contradiction
+          end.
+          - destruct Hcap as (_ & (c2 & -> & Hc2) & Hs2).
+            apply rr_bind; [apply q_out_write; [Rx|exact Hs2]|]. intros _ s3 s3' _ HR3 Hs3.
+            apply rr_bind; [apply q_out_write; [exact HR3|exact Hs3]|]. intros _ s4 s4' _ HR4 Hs4.
+            apply q_out_write; assumption.
+          - destruct Hcap as (<- & (c2 & -> & Hc2) & Hs2). leafx.
+          - exact Hcap.
+          - exact I. }
+        destruct (starts_with (`"f:") name).
         { apply q_out_write; [destruct HR as (c & -> & Hc); Rx|exact Hs]. }
         destruct (starts_with (`"w:") name).
         { apply q_out_write; [destruct HR as (c & -> & Hc); Rx|exact Hs]. }
